@@ -51,12 +51,12 @@ func c14(tier string) int {
 			{Family: "disk", Params: "keys=2,slots=3,levels=RC.RR,close=1", From: 1, To: 5},
 		}
 	}
-	bulk := []enum.Plan{{Family: "bulk", Params: "maxn=24"}}
+	bulk := []enum.Plan{{Family: "bulk", Params: "maxn=24"}, {Family: "bulk", Params: "large=1,maxn=1025"}}
 	if tier == "thorough" {
-		bulk = []enum.Plan{{Family: "bulk", Params: "maxn=64"}}
+		bulk = []enum.Plan{{Family: "bulk", Params: "maxn=64"}, {Family: "bulk", Params: "large=1,maxn=2049"}}
 	}
 	return seqEnumCheck("C14", tier, 240*time.Second, 15*time.Minute, plans, bulk,
-		"all fault-free histories up to the stated depth of autocommit and transactional writes, deletes, commits, failed commits, rollbacks and (one-key plan) collection passes at any position; epilogue: roll back what is open, exact quiescence, one GC pass, quiescence, then the roots must hold exactly one content file per readable key with that key's bytes, all directly inside <root>/<uuid>/; variant close=1: Close immediately after the history (work pending), new process, reopen, same epilogue; plus the size dimension (family bulk): one transaction or the autocommit caller issuing n = 1..24 (thorough 64) writes in six shapes (n overwrites of one key committed / rolled back / autocommitted, n keys committed and reopened, n keys in a refused snapshot commit, n keys deleted), same epilogue with and without a restart",
+		"all fault-free histories up to the stated depth of autocommit and transactional writes, deletes, commits, failed commits, rollbacks and (one-key plan) collection passes at any position; epilogue: roll back what is open, exact quiescence, one GC pass, quiescence, then the roots must hold exactly one content file per readable key with that key's bytes, all directly inside <root>/<uuid>/; variant close=1: Close immediately after the history (work pending), new process, reopen, same epilogue; plus the size dimension (family bulk): one transaction or the autocommit caller issuing n = 1..24 (thorough 64) writes in six shapes (n overwrites of one key committed / rolled back / autocommitted, n keys committed and reopened, n keys in a refused snapshot commit, n keys deleted), same epilogue with and without a restart; and sparse large sizes (63..1025, thorough 2049, around powers of two and 1000) for the three shapes that hand the cleaner one big batch",
 		seqAssumptions)
 }
 
@@ -67,7 +67,8 @@ func c09(tier string) int {
 	}
 	if tier == "thorough" {
 		plans = []seq.Plan{
-			{Family: "gcdiff", Params: "keys=1,slots=3,levels=RR.RU.RC,maxgc=9", From: 1, To: 6},
+			{Family: "gcdiff", Params: "keys=1,slots=3,levels=RR.RU.RC,maxgc=9", From: 1, To: 5},
+			{Family: "gcdiff", Params: "keys=1,slots=2,levels=RR.RU.RC,maxgc=9", From: 6, To: 6},
 			{Family: "gcdiff", Params: "keys=2,slots=2,levels=RR.RC,maxgc=2", From: 1, To: 5},
 			{Family: "heldreader", Params: "keys=1,slots=2,levels=RR.RU.RC", From: 1, To: 5},
 		}
